@@ -177,6 +177,12 @@ def parse_position(attr_value: str) -> typing.Tuple[str, styles.LengthType, str,
 
   items = attr_value.split()
 
+  if len(items) == 0 or len(items) > 4:
+    raise ValueError("A position has between one and four components")
+
+  if sum(i in h_edges for i in items) > 1 or sum(i in v_edges for i in items) > 1:
+    raise ValueError("A position has at most one horizontal and one vertical edge")
+
   if len(items) in (1, 2):
 
     # begin processing 1 and 2 components
@@ -257,9 +263,13 @@ def parse_position(attr_value: str) -> typing.Tuple[str, styles.LengthType, str,
 
           h_offset = styles.LengthType(value, styles.LengthType.Units(units))
 
-        if v_edge is not None and v_offset is None:
+        elif v_edge is not None and v_offset is None:
 
           v_offset = styles.LengthType(value, styles.LengthType.Units(units))
+
+        else:
+
+          raise ValueError("An offset must follow an edge keyword")
     
     # end processing 3 and 4 components
 
